@@ -817,6 +817,17 @@ impl Interp {
                     },
                 }
             }
+            Op::RegisterAlien { add } => match &self.w.alien_vamm {
+                None => Act::Skip,
+                Some(a) => Act::FundAdmin {
+                    sender: self.w.owner.clone(),
+                    msg: if *add {
+                        fund::ExecuteMsg::AddVamm { vamm: a.to_string() }
+                    } else {
+                        fund::ExecuteMsg::RemoveVamm { vamm: a.to_string() }
+                    },
+                },
+            },
             Op::Shutdown => Act::FundAdmin {
                 sender: self.w.owner.clone(),
                 msg: fund::ExecuteMsg::ShutdownVamms {},
